@@ -606,7 +606,16 @@ pub fn domain(f: &Field, depth: Depth, in_capped: bool) -> Vec<Val> {
         Ty::List { max, elem } => {
             // counts 0..=max with signature elements
             let capped = elem.iter().any(|f| handicap_cap(f).is_some());
-            (0..=*max)
+            let mk = |e: usize| -> Vec<Val> {
+                elem.iter().enumerate().map(|(i, f)| {
+                    if capped { if let Some(cap) = handicap_cap(f) { return Val::N(((e * 7 + i) as i64) % (cap + 1)); } }
+                    b1(f, e * 5 + i)
+                }).collect()
+            };
+            // equal elements and a repeated first element: order and multiplicity must survive
+            let mut extra = vec![Val::L(vec![mk(3), mk(3)]), Val::L(vec![mk(1), mk(2), mk(1)])];
+            if *max < 3 { extra.clear(); }
+            let mut base: Vec<Val> = (0..=*max)
                 .map(|c| {
                     Val::L(
                         (0..c)
@@ -626,26 +635,50 @@ pub fn domain(f: &Field, depth: Depth, in_capped: bool) -> Vec<Val> {
                             .collect(),
                     )
                 })
-                .collect()
+                .collect();
+            base.extend(extra);
+            base
         },
-        Ty::SkinList { max } => (0..=*max)
-            .map(|c| {
-                Val::L(
-                    (0..c)
-                        .map(|e| vec![Val::N(0x0100_0000 + (e as i64) * 0x010203 + 0xa1)])
-                        .collect(),
-                )
-            })
-            .collect(),
-        Ty::IpList { max } => (0..=*max)
-            .map(|c| {
-                Val::L(
-                    (0..c)
-                        .map(|e| vec![Val::N(0x0a00_0000 + (e as i64) * 0x0103 + 7)])
-                        .collect(),
-                )
-            })
-            .collect(),
+        Ty::SkinList { max } => {
+            let mut out: Vec<Val> = (0..=*max)
+                .map(|c| {
+                    Val::L(
+                        (0..c)
+                            .map(|e| vec![Val::N(0x0100_0000 + (e as i64) * 0x010203 + 0xa1)])
+                            .collect(),
+                    )
+                })
+                .collect();
+            // every element is a raw mod id: ids that look like car names (or are 0) are still ids
+            let mut ids: Vec<i64> = u32_boundary();
+            ids.extend(BUILTIN_CARS.iter().map(|c| vehicle_u32(c)));
+            for shaped in ["BA9", "xfg", "000", "zzz", "A1b"] {
+                ids.push(vehicle_u32(shaped));
+            }
+            for id in ids {
+                out.push(Val::L(vec![vec![Val::N(id)]]));
+                out.push(Val::L(vec![vec![Val::N(0x00ab_cdef)], vec![Val::N(id)], vec![Val::N(0x7654_3210)]]));
+            }
+            out
+        },
+        Ty::IpList { max } => {
+            let mut out: Vec<Val> = (0..=*max)
+                .map(|c| {
+                    Val::L(
+                        (0..c)
+                            .map(|e| vec![Val::N(0x0a00_0000 + (e as i64) * 0x0103 + 7)])
+                            .collect(),
+                    )
+                })
+                .collect();
+            for ip in u32_boundary() {
+                out.push(Val::L(vec![vec![Val::N(ip)]]));
+                if ip != 0x0a00_0001 {
+                    out.push(Val::L(vec![vec![Val::N(0x0a00_0001)], vec![Val::N(ip)]]));
+                }
+            }
+            out
+        },
         Ty::Array { .. } | Ty::Spare(_) | Ty::Count(_) | Ty::Pad4 | Ty::Tag { .. } => vec![],
     }
 }
